@@ -258,18 +258,15 @@ Proof.
   induction 1 as [|l ls Hl _ IH]; [reflexivity|]. cbn [map]. rewrite IH, (txt_upper l (linec_txtc l Hl)). reflexivity.
 Qed.
 
-(* rrulestr on a multi-line text: exactly the listed members, in their roles *)
-Theorem set_assembly_text ev o short its rr xr :
-  its <> [] -> forallb wf_item its = true ->
-  o_ignoretz o = false -> o_compatible o = false -> o_unfold o = false ->
+(* a multi-line text that makes a set goes through the property loop (whatever ignoretz is) *)
+Lemma text_general ev o short its :
+  its <> [] -> forallb wf_item its = true -> o_compatible o = false -> o_unfold o = false ->
   (o_forceset o || (1 <? Z.of_nat (List.length (rules_of its))) || negb (isnil (rdates_of its))
    || negb (isnil (exrules_of its)) || negb (isnil (exdates_of its))) = true ->
-  parse_rules ev false (start_of its (o_dtstart o)) (rules_of its) = Ok rr ->
-  parse_rules ev false (start_of its (o_dtstart o)) (exrules_of its) = Ok xr ->
   parse_rfc ev o (join [10] (map (render_item short) its)) =
-  RSet (o_cache o) rr (concat (rdates_of its)) xr (exdates_of its).
+  general ev o (o_forceset o) (tzid_findall (join [10] (map (render_item short) its))) (map (render_item short) its).
 Proof.
-  intros Hne Hw Hi Hc Hu Hset Hrr Hxr.
+  intros Hne Hw Hc Hu Hset.
   set (ls := map (render_item short) its).
   assert (Hls : Forall (fun l => Forall (fun c => linec c = true) l /\ l <> []) ls).
   { unfold ls. apply Forall_forall. intros l Hl. apply in_map_iff in Hl as [it [<- Hit]].
@@ -301,10 +298,24 @@ Proof.
     - unfold ls. cbn [map List.length]. rewrite !Nat2Z.inj_succ.
       replace (Z.succ (Z.succ (Z.of_nat (List.length (map (render_item short) its')))) =? 1) with false by lia.
       reflexivity. }
-  rewrite Hsc.
-  pose proof (set_assembly ev o (tzid_findall (join [10] ls)) short its rr xr Hw Hi) as S.
+  rewrite Hsc. reflexivity.
+Qed.
+
+(* rrulestr on a multi-line text: exactly the listed members, in their roles *)
+Theorem set_assembly_text ev o short its rr xr :
+  its <> [] -> forallb wf_item its = true ->
+  o_ignoretz o = false -> o_compatible o = false -> o_unfold o = false ->
+  (o_forceset o || (1 <? Z.of_nat (List.length (rules_of its))) || negb (isnil (rdates_of its))
+   || negb (isnil (exrules_of its)) || negb (isnil (exdates_of its))) = true ->
+  parse_rules ev false (start_of its (o_dtstart o)) (rules_of its) = Ok rr ->
+  parse_rules ev false (start_of its (o_dtstart o)) (exrules_of its) = Ok xr ->
+  parse_rfc ev o (join [10] (map (render_item short) its)) =
+  RSet (o_cache o) rr (concat (rdates_of its)) xr (exdates_of its).
+Proof.
+  intros Hne Hw Hi Hc Hu Hset Hrr Hxr. rewrite (text_general ev o short its Hne Hw Hc Hu Hset).
+  pose proof (set_assembly ev o (tzid_findall (join [10] (map (render_item short) its))) short its rr xr Hw Hi) as S.
   cbv zeta in S. rewrite Hc in S. rewrite !orb_false_r in S. specialize (S Hset Hrr Hxr).
-  fold ls in S. rewrite S. rewrite app_nil_r. reflexivity.
+  rewrite S. rewrite app_nil_r. reflexivity.
 Qed.
 
 (* non-vacuity: a five-line set *)
